@@ -7,7 +7,8 @@ What is injected (nothing else in the copy differs from /repo's working tree):
   * for every kani/<path with __ for />.rs harness module, the text
         #[cfg(kani)] mod verif_kani { use super::*; <module text> }
     is appended to src/<path>.rs;
-  * kani/_prelude.rs is appended to src/lib.rs as `#[cfg(kani)] pub(crate) mod verif_prelude`.
+  * kani/_prelude.rs is appended to src/lib.rs as `#[cfg(kani)] pub(crate) mod verif_prelude`, and the line
+    `#![cfg_attr(kani, feature(allocator_api))]` is put in front of src/lib.rs (harness helpers name Vec's allocator parameter).
   * a sibling .cargo/config.toml with [net] offline and the [patch.crates-io] substitutes.
 No existing line of the copy is changed or removed.
 """
@@ -105,6 +106,10 @@ def make_scratch(root, patches=("anyhow", "hmac", "aes-gcm", "aes", "ctr"), with
         injected["modules"].append({"file": rel, "module": os.path.relpath(src, VERIF),
                                     "sha256": hashlib.sha256(body.encode()).hexdigest()})
     pre = os.path.join(VERIF, "kani", "_prelude.rs")
-    with open(os.path.join(dst, "src", "lib.rs"), "a") as fh:
+    libp = os.path.join(dst, "src", "lib.rs")
+    # crate-level feature gate for harness helpers that name the allocator type parameter (cfg(kani) only)
+    libtxt = open(libp).read()
+    open(libp, "w").write("#![cfg_attr(kani, feature(allocator_api))]\n" + libtxt)
+    with open(libp, "a") as fh:
         fh.write("\n#[cfg(kani)]\n#[allow(unused, dead_code)]\npub(crate) mod verif_prelude {\n" + open(pre).read() + "\n}\n")
     return dst, injected
